@@ -21,7 +21,7 @@ LEVEL_NOTE = 'Trusted: itertools.groupby as the definition of maximal runs; mc/r
 TECHNIQUE = 'stateless bounded-exhaustive exploration of the real operator against a maximal-runs reference model'
 
 INNER = [['tap', 'h'], ['to_list'], ['tap', 't']]
-PREDS = ['mod10', 'p_big', 'p_str', 'p_mixed']
+PREDS = ['mod10', 'p_big', 'p_str', 'p_mixed', 'p_falsy']
 
 
 def bounds(tier):
